@@ -225,7 +225,8 @@ func windowAlts() []mutation {
 func chainAlts(withBlockSlot bool) []variable {
 	vs := []variable{
 		{"bad", []mutation{m("bad-block", set("bad", "1"))}},
-		{"bknown", []mutation{m("block-unknown", set("bknown", "0"))}},
+		{"bknown", []mutation{m("block-unknown", set("bknown", "0"), set("tsub", "unk"), set("tckpt", "0"), set("fsub", "unk")),
+			m("block-unknown-inconsistent-view", set("bknown", "0"))}},
 		{"tsub", []mutation{m("tsub=unk", set("tsub", "unk"), set("tckpt", "0")),
 			m("tsub=no", set("tsub", "no"), set("tckpt", "0")),
 			m("target-not-checkpoint", set("tckpt", "0"))}},
@@ -586,10 +587,10 @@ func aslashFamily(o hreg.Opts) *family {
 	return f
 }
 
-// syncMember returns a (validator, subnet) of the committee in charge according to the code (current committee).
+// syncMember returns a (validator, subnet) of the committee in charge at the slot.
 func syncMember(c *netCtx, slot uint64, pick int) (uint64, uint64) {
 	s := syncState(c, slot)
-	ind := s.epc.CurrentSyncCommittee.Indices
+	ind, _ := c.syncInCharge(s, slot)
 	i := pick % len(ind)
 	sub := uint64(c.spec.SYNC_COMMITTEE_SIZE) / 4
 	return uint64(ind[i]), uint64(i) / sub
@@ -621,7 +622,8 @@ func syncMsgFamily(o hreg.Opts) *family {
 		c := mustCtx(k)
 		s := syncState(c, k.u("slot"))
 		in := map[uint64]bool{}
-		for _, v := range s.epc.CurrentSyncCommittee.Indices {
+		ind, _ := c.syncInCharge(s, k.u("slot"))
+		for _, v := range ind {
 			in[uint64(v)] = true
 		}
 		for v := uint64(0); v < uint64(c.def.validators); v++ {
@@ -631,19 +633,20 @@ func syncMsgFamily(o hreg.Opts) *family {
 			}
 		}
 	}
-	// a member of the NEXT committee, on its subnet there (honest at a period boundary)
+	// a member of the OTHER committee (next when the current one is in charge and vice versa), on its subnet there
 	nextMember := func(k *kvs) {
 		c := mustCtx(k)
 		s := syncState(c, k.u("slot"))
-		ind := s.epc.NextSyncCommittee.Indices
+		_, ind := c.syncInCharge(s, k.u("slot"))
 		i := 3 % len(ind)
 		k.setU("vindex", uint64(ind[i])).setU("subnet", uint64(i)/(uint64(c.spec.SYNC_COMMITTEE_SIZE)/4))
 	}
 	f.vars = []variable{
 		{"window", syncWindowAlts()},
-		{"bknown", []mutation{m("block-unknown", set("bknown", "0"))}},
+		{"bknown", []mutation{m("block-unknown", set("bknown", "0"), set("tsub", "unk"), set("tckpt", "0"), set("fsub", "unk")),
+			m("block-unknown-inconsistent-view", set("bknown", "0"))}},
 		{"epc", []mutation{m("epc-err", set("epc", "0"))}},
-		{"validator", []mutation{m("non-member", nonMember), m("next-committee-member", nextMember),
+		{"validator", []mutation{m("non-member", nonMember), m("other-committee-member", nextMember),
 			m("vindex=n", func(k *kvs) { k.setU("vindex", uint64(mustCtx(k).def.validators)) }), m("vindex=max", setU("vindex", ^uint64(0)))}},
 		{"subnet", []mutation{m("subnet+1", func(k *kvs) { k.setU("subnet", (k.u("subnet")+1)%4) }), m("subnet+2", func(k *kvs) { k.setU("subnet", (k.u("subnet")+2)%4) }),
 			m("subnet=4", setU("subnet", 4)), m("subnet=max", setU("subnet", ^uint64(0)))}},
@@ -654,14 +657,15 @@ func syncMsgFamily(o hreg.Opts) *family {
 	return f
 }
 
-// pickSyncAggregator: a member of subcommittee subidx (current committee) whose selection proof selects / does not.
+// pickSyncAggregator: a member of subcommittee subidx (committee in charge) whose selection proof selects / does not.
 func pickSyncAggregator(c *netCtx, slot, subidx uint64, want bool) (uint64, bool) {
 	s := syncState(c, slot)
 	size := uint64(c.spec.SYNC_COMMITTEE_SIZE)
 	sub := size / 4
 	modulo := size / 4 / 16
 	sd := sha(func() []byte { a := uint64Root(slot); return a[:] }(), func() []byte { a := uint64Root(subidx); return a[:] }())
-	for _, v := range s.epc.CurrentSyncCommittee.Indices[subidx*sub : (subidx+1)*sub] {
+	inCharge, _ := c.syncInCharge(s, slot)
+	for _, v := range inCharge[subidx*sub : (subidx+1)*sub] {
 		proof := c.sign(sigOK, int(v), common.DOMAIN_SYNC_COMMITTEE_SELECTION_PROOF, s.epoch, s.epoch, sd)
 		if (hashMod(proof, modulo) == 0) == want {
 			return uint64(v), true
@@ -704,7 +708,8 @@ func contribFamily(o hreg.Opts) *family {
 		}
 		sub := uint64(c.spec.SYNC_COMMITTEE_SIZE) / 4
 		in := map[uint64]bool{}
-		for _, v := range s.epc.CurrentSyncCommittee.Indices[k.u("subidx")*sub : (k.u("subidx")+1)*sub] {
+		inCharge, _ := c.syncInCharge(s, k.u("slot"))
+		for _, v := range inCharge[k.u("subidx")*sub : (k.u("subidx")+1)*sub] {
 			in[uint64(v)] = true
 		}
 		for v := uint64(0); v < uint64(c.def.validators); v++ {
@@ -728,13 +733,14 @@ func contribFamily(o hreg.Opts) *family {
 		{"bits", []mutation{m("bits:none", set("bits", "-")), m("bits:one", set("bits", "2"))}},
 		{"aggregator", []mutation{m("aggregator-not-selected", notSelected), m("aggregator-other-subcommittee", otherSub),
 			m("aggregator=n", func(k *kvs) { k.setU("aggregator", uint64(mustCtx(k).def.validators)) }), m("aggregator=max", setU("aggregator", ^uint64(0)))}},
-		{"bknown", []mutation{m("block-unknown", set("bknown", "0"))}},
+		{"bknown", []mutation{m("block-unknown", set("bknown", "0"), set("tsub", "unk"), set("tckpt", "0"), set("fsub", "unk")),
+			m("block-unknown-inconsistent-view", set("bknown", "0"))}},
 		{"epc", []mutation{m("epc-err", set("epc", "0"))}},
 		{"seen", []mutation{m("seen", set("seen", "1"))}},
 		{"dom", []mutation{m("domain-err", set("dom", "0"))}},
 		{"selproof", sigAlts("selk")},
 		{"outer", sigAlts("osigk")},
-		{"contribsig", csig("wrongkey", "missing", "wrongmsg", "garbage", "infinity", "zero", "next")},
+		{"contribsig", csig("wrongkey", "missing", "wrongmsg", "garbage", "infinity", "zero", "other")},
 	}
 	return f
 }
